@@ -1,12 +1,19 @@
 /-
-  C36 — Printed statements reparse to the same statement.   (partial: token level)
-  Proved for all values: what `Display` writes for every kind of operand is read back by the lexer as a token that the
-  operand parser converts to the same operand — string literals over the characters the property allows (for every
-  string), signed and unsigned offsets of every width 1–16 (for every field value), registers, mnemonics.
-  Not proved: the composition over a whole statement line (token sequence → statement); that step is covered by the
-  correspondence check (parse → print → parse on the implementation and on the model, compared).
+  C36 — Printed statements reparse to the same statement.
+  Proved for the model, for every statement `s` that satisfies `StmtOk` (what the parser can produce: every label and
+  label operand is a word the lexer lexes as a label — `lexOne_label_ok` shows that every label token the lexer emits
+  is such a word —, a branch has a non-empty condition code, `.blkw` is non-zero, and string literals hold only printable
+  ASCII, tab, LF, CR, NUL and are below 65535 bytes): `parseAst (showStmt s)` returns exactly one statement with the same
+  labels (by name), the same instruction or directive and the same operands (label operands by name; positions in
+  the text necessarily differ).  The proof goes through the token level: the printed text is a sequence of atoms each
+  of which is lexed as its token in front of a blank, a comma or the end (`lex_atoms`), and the parser reads the token
+  values of every instruction and directive form back (`parseInstr_toks`, `parseDirective_toks`, `parseStmt_toks`).
+  Not proved: that every statement `parseAst` returns satisfies `StmtOk` as one theorem (the pieces are: labels come from
+  label tokens, `brCC` never yields 0, `.blkw 0` is rejected); the correspondence check parses generated programs, prints
+  every statement and reparses it on implementation and model.
 -/
 import Lc3V.Lemmas.PrintLex
+import Lc3V.Lemmas.PrintParse
 import Lc3V.Props.C05
 set_option linter.unusedSimpArgs false
 namespace Lc3V.C36
@@ -49,17 +56,6 @@ theorem unsigned_offset_roundtrip (n : Nat) (h1 : 1 ≤ n) (h2 : n ≤ 16) (v : 
   · have := (C05.unsigned_field_unsigned_tok_ok n h1 h2 v.toNat hv sp).mpr hlt
     rw [this]
     simp
-
-theorem intDec_nonneg (i : Int) (h : 0 ≤ i) : intDec i = natDigits i.toNat := by
-  obtain ⟨m, rfl⟩ := Int.eq_ofNat_of_zero_le h
-  rfl
-
-theorem intDec_neg (i : Int) (h : i < 0) : intDec i = '-' :: natDigits (-i).toNat := by
-  obtain ⟨m, rfl⟩ := Int.eq_negSucc_of_lt_zero h
-  unfold intDec natDigits
-  show (("-" ++ toString (m + 1) : String)).toList = _
-  rw [String.toList_append]
-  rfl
 
 /-- a signed offset (imm5, offset6, PC offsets): `#` + signed decimal, read back as the same field value -/
 theorem signed_offset_roundtrip (n : Nat) (h1 : 1 ≤ n) (h2 : n ≤ 16) (v : BitVec n) (rest : List Char) (hr : EndsWord rest)
@@ -134,8 +130,29 @@ theorem br_mnemonic_roundtrip : ∀ n ∈ List.range 8,
      | .kw k => if n = 0 then k == .NOP else brCC k == some (BitVec.ofNat 3 n)
      | _ => false) = true := by decide +kernel
 
+/-- **print, then parse**: the same statement comes back -/
+theorem print_then_parse (s : Stmt) (h : StmtOk s) :
+    ∃ s', parseAst (showStmt s) = .ok [s'] ∧ s'.labels.map (·.name) = s.labels.map (·.name) ∧ s'.nucleus.erase = s.nucleus.erase :=
+  parse_print s h
+
+/-- the parser's branch condition codes are never empty -/
+theorem brCC_ne_zero (k : Kw) (cc : BitVec 3) (h : brCC k = some cc) : cc ≠ 0 := by
+  cases k <;> simp [brCC] at h <;> (subst h; decide)
+
+/-- the premise is satisfiable: a statement with two labels, a label operand and an immediate -/
+example : StmtOk ⟨[⟨['L', 'o', 'o', 'p'], 0⟩, ⟨['x', '_', '1'], 5⟩], .instr (.br 5 (.label ⟨['e', 'n', 'd', 'e'], 9⟩)), (0, 0)⟩ := by
+  refine ⟨?_, ?_, ?_⟩
+  · intro l hl
+    simp only [List.mem_cons, List.mem_nil_iff, or_false] at hl
+    rcases hl with rfl | rfl <;> decide
+  · decide
+  · show labelOk ['e', 'n', 'd', 'e'] = true
+    decide
+
 def obligations : List Lean.Name :=
   [``string_literal_roundtrip, ``unsigned_offset_roundtrip, ``signed_offset_roundtrip,
-   ``keyword_roundtrip, ``reg_roundtrip, ``br_mnemonic_roundtrip]
+   ``keyword_roundtrip, ``reg_roundtrip, ``br_mnemonic_roundtrip,
+   ``print_then_parse, ``brCC_ne_zero, ``Lc3V.parse_print, ``Lc3V.lex_atoms, ``Lc3V.parseInstr_toks, ``Lc3V.parseDirective_toks,
+   ``Lc3V.parseStmt_toks, ``Lc3V.lexOne_label_ok, ``Lc3V.showStmt_atoms, ``Lc3V.stmtAtoms_ok]
 
 end Lc3V.C36
